@@ -56,7 +56,7 @@ def generate(rng, tier):
         if r['op'] == 'read_data' and w.chans[r['ch']].type == 'daqmx' and rng.random() < 0.5:
             r['scaled'] = False
     return {'spec': spec, 'raw_ts': raw_ts, 'cut': cut, 'ops': reqs,
-            'short_seed': rng.getrandbits(32) if rng.random() < 0.3 else None}
+            'short_seed': rng.getrandbits(32) if rng.random() < 0.3 else None, 'debug_log': rng.random() < 0.05}
 
 
 def _sig(spec):
@@ -93,7 +93,7 @@ def execute(case):
     raw_ts = case['raw_ts']
     data = w.data if case['cut'] is None else w.data[:case['cut']]
     res.sig = [_sig(spec), None if case['cut'] is None else 'cut']
-    with store(short_seed=case['short_seed'], record=False) as st:
+    with store(short_seed=case['short_seed'], record=False) as st, lib.knobs(debug_log=case.get('debug_log', False)):
         st.put('w.tdms', data)
         try:
             eager = lib.TdmsFile.read(st.source('simstream', 'w.tdms'), raw_timestamps=raw_ts)
